@@ -355,7 +355,11 @@ def file_pool(ctx, rng):
     pool = []
     for k in range(ngen):
         name, txt = gen_file(rng, k, edge=(k % 2 == 0))
+        if k % 4 == 2:
+            name += ".v2"          # more than one dot in the base name: the default output is named after everything before the LAST dot
         pool.append((name, txt, "generated"))
+    # a translation unit without any function definition: the run still succeeds and saves the (statistics-only) result
+    pool.append(("nofunc", "int glob = 3;\ntypedef int T;\nint proto(int x);\n", "generated"))
     for rel in (CORPUS_THOROUGH if ctx.thorough else CORPUS_QUICK):
         p = os.path.join(vlib.REPO, "c_files", rel)
         with open(p) as fh:
@@ -406,14 +410,14 @@ def build_jobs(ctx, rng, pool):
                     d["mode"] = d["mode"].lower()
                 if k % 11 == 5 and d["mode"] == "F":
                     d["mode"] = None
-                rel = f"src/{name}.c" if k % 5 == 1 else f"{name}.c"
+                rel = f"src/{name}.c" if k % 5 == 1 else (f"s.rc/d.1/{name}.c" if k % 5 == 3 else f"{name}.c")
                 jobs.append(mk_job(name, txt, rel, d, absolute=(k % 13 == 2), file_last=(k % 17 == 4)))
     else:
         per = 4
         for name, txt, _ in pool:
             pre = is_preprocessed(txt)
             for k, b in enumerate(quick_bases(rng, per)):
-                rel = f"src/{name}.c" if rng.random() < 0.25 else f"{name}.c"
+                rel = rng.choice([f"src/{name}.c", f"s.rc/d.1/{name}.c"]) if rng.random() < 0.3 else f"{name}.c"
                 ab, fl_ = rng.random() < 0.15, rng.random() < 0.15
                 for nc in ((False, True) if pre else (False,)):
                     d = dict(b)
